@@ -213,7 +213,15 @@ def c18(cfg):
                 lib = prod[idx]
             except (TypeError, RuntimeError) as e:
                 if documented or "One" not in repr(e) + repr(getattr(e, "__cause__", "")):
-                    raise
+                    from .herm import library_exception_info
+
+                    root = e.__cause__ if isinstance(e, RuntimeError) and e.__cause__ is not None else e
+                    is_lib, where = library_exception_info(root)
+                    if not is_lib:
+                        raise
+                    rec.direct_violation(f"product{idx} hermitian={hf} raised", f"raised-{type(root).__name__}:nf={nf}:mode={mode}:params={npar}",
+                                         {"exception": f"{type(root).__name__}: {root}"[:300], "where": where, "index": list(idx)}, reproduced=True)
+                    break
                 # `one` outside its documented use (identity at zeroth order of a series whose zeroth order is otherwise
                 # absent): the library refuses loudly (TypeError when adding the sentinel to a matrix) - not a wrong value.
                 rec.note(f"sentinel `one` outside documented domain rejected with {type(e).__name__} at {idx}")
@@ -425,6 +433,9 @@ def configs(tier, seed):
         add(blockdims=[[1, 1], [2, 1], [2, 1], [1, 1]], mode="XdBX", schedule=sched)
         add(blockdims=[[1, 1], [1, 1], [1, 1]], mode="XdX", nparams=2, schedule=sched)
         add(blockdims=[[1, 1], [1, 1], [1, 1], [1, 1]], mode="XdBX", nparams=2, schedule=sched)
+    # no perturbation parameter at all (n_infinite = 0): the product is the plain block product
+    add(blockdims=[[1, 2], [2, 1], [1, 1]], nparams=0, request_order=0, factor_order=0)
+    add(blockdims=[[1, 1], [1, 2], [1, 1], [2]], nparams=0, request_order=0, factor_order=0)
     # a Hermitian product whose second factor is not the adjoint of the first
     add(blockdims=[[1, 2], [1, 2], [1, 2]], mode="commuting", request_order=2, factor_order=2)
     add(blockdims=[[2], [2], [2]], mode="commuting", request_order=2, factor_order=2)
